@@ -4,6 +4,7 @@ mod faults;
 mod orch;
 mod rng;
 mod scenarios;
+mod scen_artefact;
 mod scen_interp;
 mod scen_txhist;
 
